@@ -3,7 +3,8 @@
 (* preceded by header lines that all start with '#'.  Written from the docstrings of     *)
 (* save_xye / load_xye, not from the code.                                               *)
 (*                                                                                        *)
-(* Symbols are integers: 1 'a', 2 '#', 3 LF, 4 SP, 5 a digit character; every integer     *)
+(* Symbols are integers: 1 'a', 2 '#', 3 LF, 4 SP, 5 a digit character, 6 CR (a line     *)
+(* break for every reader that opens the file with universal newlines); every integer     *)
 (* >= 1000000 is a number cell standing for one distinguished double (value-id).  A line  *)
 (* is a sequence of symbols (without the line end), a file a sequence of lines.           *)
 (*   x-id of row i of coordinate c : (c+1)*1000000 + i  (c = 0 is the dimension-coord.)   *)
@@ -12,7 +13,7 @@
 (*   8000000 = a number that is none of the supplied ones                                  *)
 EXTENDS Integers, Sequences, FiniteSets, SequencesExt
 
-CA == 1  CHASH == 2  CLF == 3  CSP == 4  CDIG == 5
+CA == 1  CHASH == 2  CLF == 3  CSP == 4  CDIG == 5  CCR == 6
 IsNumCell(s) == s >= 1000000
 XId(c, i) == (c + 1) * 1000000 + i
 YId(i) == 6000000 + i
@@ -26,6 +27,19 @@ SplitAt(s, sep) ==
     LET ps == { i \in 1..Len(s) : s[i] = sep } IN
     IF ps = {} THEN <<s>>
     ELSE LET i == MinOf(ps) IN <<SubSeq(s, 1, i - 1)>> \o SplitAt(SubSeq(s, i + 1, Len(s)), sep)
+
+(* split at LF and at CR *)
+SplitAtBreaks(s) == FlattenSeq([k \in 1..Len(SplitAt(s, CLF)) |-> SplitAt(SplitAt(s, CLF)[k], CCR)])
+(* the lines a universal-newline reader sees: a CR left inside a written line breaks it *)
+IsDataShape(line) == /\ Len(line) = 5 /\ line[1] >= 1000000 /\ line[2] = CSP /\ line[3] >= 1000000
+                     /\ line[4] = CSP /\ line[5] >= 1000000
+ReaderLines(lines) ==
+    \* only the lines up to the last one that is not a plain data line can contain a CR: split
+    \* those, keep the (possibly very long) table behind them as it is
+    LET odd == { k \in 1..Len(lines) : ~IsDataShape(lines[k]) }
+        h == IF odd = {} THEN 0 ELSE CHOOSE k \in odd : \A j \in odd : j <= k
+    IN IF h = 0 THEN lines
+       ELSE FlattenSeq([k \in 1..h |-> SplitAt(lines[k], CCR)]) \o SubSeq(lines, h + 1, Len(lines))
 
 -----------------------------------------------------------------------------
 (* What is to be saved.  cfg = [hasvar, ndim, masks, coords (set of coordinate numbers,   *)
@@ -73,7 +87,8 @@ DefaultHeader == <<CA, CSP, CA, CSP, CA>>      \* "x [unit]  Y [unit]  E [unit]"
 HeaderLines(h, bug) ==
     LET hh == IF h = <<-1>> THEN DefaultHeader ELSE h IN
     IF hh = <<>> THEN <<>>
-    ELSE LET pieces == SplitAt(hh, CLF) IN
+    ELSE LET pieces == IF bug = "cr_kept" THEN SplitAt(hh, CLF)     \* negative control
+                       ELSE SplitAtBreaks(hh) IN
          [k \in 1..Len(pieces) |->
             IF bug = "first_line_only" /\ k > 1 THEN pieces[k]      \* negative control
             ELSE <<CHASH, CSP>> \o pieces[k]]
@@ -101,16 +116,18 @@ FieldValue(f) ==      \* -1 = not a number
     ELSE IF \A i \in 1..Len(f) : f[i] = CDIG THEN 0
     ELSE -1
 
-Load(lines) ==
-    LET content == SelectSeq([k \in 1..Len(lines) |-> Fields(CutComment(lines[k]))], LAMBDA fs : fs # <<>>)
+Load(written) ==
+    LET lines == ReaderLines(written)
+        content == SelectSeq([k \in 1..Len(lines) |-> Fields(CutComment(lines[k]))], LAMBDA fs : fs # <<>>)
         rows == [k \in 1..Len(content) |-> [q \in 1..Len(content[k]) |-> FieldValue(content[k][q])]]
         ok == /\ Len(rows) >= 1
               /\ \A k \in 1..Len(rows) : Len(rows[k]) = 3 /\ \A q \in 1..3 : rows[k][q] # -1
     IN [ok |-> ok, rows |-> rows]
 
 (* structure of a written file: comment lines first, then exactly the data lines *)
-WellFormed(lines, nrows) ==
-    LET nh == Len(lines) - nrows IN
+WellFormed(written, nrows) ==
+    LET lines == ReaderLines(written)
+        nh == Len(lines) - nrows IN
        /\ nh >= 0
        /\ \A k \in 1..nh : Len(lines[k]) >= 1 /\ lines[k][1] = CHASH
        /\ \A k \in (nh + 1)..Len(lines) :
